@@ -7,8 +7,8 @@ for d in sorted(glob.glob(os.path.join(V, 'seeded', '*'))):
     m = json.load(open(os.path.join(d, 'meta.json')))
     sid = os.path.basename(d)
     summ = (m.get('summary') or '').replace('|', '/').replace('\n', ' ')
-    if len(summ) > 230:
-        summ = summ[:227] + '…'
+    if len(summ) > 150:
+        summ = summ[:147] + '…'
     res = []
     for c, r in (m.get('checks') or {}).items():
         kind = 'caught' if r.get('caught') else ('exit %s' % r.get('exit'))
